@@ -926,7 +926,7 @@ fn alphabet(tier: Tier, _pol: &Pol) -> Vec<Out> {
 pub fn run(tier: Tier, seed: u64) -> i32 {
     let rep = Report::new("C14", tier, seed, Level::ModelChecking);
     rep.set_rule(
-        "for every policy of the grid (and every distinct policy RetryPolicy::from_env produces from the environment-string grid) the complete outcome tree is enumerated: a path ends at the first Ok / non-retryable outcome or after max_attempts+1 retryable outcomes; every complete path is one execution of the real RetryPolicy::execute under tokio's paused clock with a scripted closure; an invocation beyond the script is a violation, so the implementation decides where it stops. states = distinct (policy, outcome-prefix) nodes; transitions = closure invocations executed; traces = complete paths; every path is distinct; non-trivial = path with at least one retry (≥ 2 outcomes). Below a prefix after which the call provably never invokes the operation again (it panicked, or was still waiting when the 200-virtual-day watchdog fired) all paths are the same execution and only the first is run; after a Retry-After of 2^64-1 s only the continuation Ok is kept",
+        "for every policy of the grid (and every distinct policy RetryPolicy::from_env produces from the environment-string grid) the complete outcome tree is enumerated: a path ends at the first Ok / non-retryable outcome or after max_attempts+1 retryable outcomes; every complete path is one execution of the real RetryPolicy::execute under tokio's paused clock with a scripted closure; an invocation beyond the script is a violation, so the implementation decides where it stops. states = distinct (policy, outcome-prefix) nodes; transitions = closure invocations executed; traces = complete paths; every path is distinct; non-trivial = path with at least one retry (≥ 2 outcomes). Below a prefix after which the call provably never invokes the operation again (it panicked, or was still waiting when the 200-virtual-day watchdog fired) all paths are the same execution and only the first is run; after a Retry-After of 2^64-1 s only the continuation Ok is kept. CDN part: the complete tree of server answer sequences (200/404/429 with and without Retry-After/503, depth max_attempts+1 = 4) is served by a loopback endpoint to the real CdnClient::download and download_archive_index in real time; request count, result and lower bounds on inter-request gaps are judged (coverage.cdn_part)",
     );
     rep.assume("tokio's paused clock is exact for pure timers up to the 1 ms granularity of its timer wheel (upper bounds carry +1 ms); the virtual clock is never advanced more than 200 days per execution (tokio's timer wheel supports deadlines ≤ 2^36 ms ahead); a wait still pending then is judged through its lower bound only, and waits that max_backoff or the Retry-After hint themselves make ≥ 1e7 s are not judged on their length");
     rep.assume("reference model: attempts ≤ max_attempts+1, stop at first Ok/non-retryable, d_k = min(d_{k-1}·multiplier, max) with d_0 = initial for sane policies; jitter judged only through the interval [d, 1.3 d]");
@@ -1043,6 +1043,8 @@ pub fn run(tier: Tier, seed: u64) -> i32 {
             "subtrees_cut_below_a_dead_prefix": pruned,
         }),
     );
+    // 4. CDN part: the HTTP-status mapping of CdnClient::download_with_retry (real time, lower bounds only)
+    super::c14_cdn::run_part(&rep, tier);
     if rep.outcomes() < 50 {
         rep.machinery_error("vacuous enumeration: fewer than 50 distinct observed outcomes");
     }
@@ -1081,6 +1083,9 @@ fn replay_witness(w: &Value) -> Vec<Vio> {
 
 pub fn replay(w: &Value) -> i32 {
     let wit = &w["witness"];
+    if wit["mode"] == "cdn" {
+        return super::c14_cdn::replay(wit);
+    }
     if wit["mode"] == "tree" {
         // debugging aid: run the whole thorough tree of one policy on this thread
         let pol = Pol::from_json(&wit["policy"]).expect("policy");
